@@ -14,6 +14,7 @@
   correspondence run and the direct oracle only (named scope limit `embedded-id-multifield`).
 -/
 import Proofs.C05
+import Proofs.C05Ext
 
 namespace MongoModel.Props.C05
 open MongoModel MongoModel.Spec
@@ -209,5 +210,206 @@ theorem id_immutable_partial (cfg : Cfg) (now : Int) (c c' : Coll) (f u : Val) (
       (∃ p ∈ c.docs, p.1 = p'.1 ∧ pyEqOpt (idOf p.2) (idOf p'.2) = true) ∨
       (∃ res id, r = .ok res ∧ res.upserted = some id ∧ p'.1 = id) :=
   Proofs.C05.id_immutable_alt cfg now c c' f u upsert multi r h hi hs
+
+/-! ### the invariant over ALL modelled operations (extended step)
+
+`stepX` / `stepXS` (MongoModel/FindModify.lean) add `find_one`, `find_one_and_update / _replace /
+_delete`, `bulk_write` and the bulk builder to the operations of `stepColl`; `runX`
+(Spec/HistoryExt.lean) is `run` over `stepXS` — what the correspondence harness drives.  The
+theorems below lift `step_inv_partial` / `reachable_inv_partial` to them.  A bulk executes its
+requests one after the other: `GoodColl` is asked of the collections BETWEEN the requests as well
+(`midColls`: what the bulk made of the first `n` requests leaves, for every `n`), for the reason
+it is asked of the states along a history.  The find-and-modify family needs nothing more than a
+basic operation does. -/
+
+/-- The unrestricted statement for the extended step. -/
+def stepX_inv_full : Prop :=
+  ∀ (cfg : Cfg) (now : Int) (c : Coll) (op : Val), IdInv c → IdInv (stepX cfg now c op).1
+
+/-- It is FALSE in the model, for the reason `step_inv_full` is: `bulk_write([InsertOne({_id:
+    {a:1, a:2}})])` stores a document under a duplicate-key association list (no Python dict),
+    which is not `==` to itself. -/
+theorem stepX_inv_full_fails : ¬ stepX_inv_full := Proofs.C05Ext.stepX_inv_false
+
+/-- **Every modelled operation** — the basic ones, `find_one`, `find_one_and_update / _replace /
+    _delete` (with or without upsert, sort, projection, `after`), `bulk_write` (ordered or not,
+    with failing requests, aborted or not) and a bulk builder executed any number of times —
+    preserves the invariant, PROVIDED the entries before, after and — for a bulk — between the
+    requests (`midColls`; empty for every other operation, `midColls_not_bulk`) are well-behaved
+    (`GoodColl`).  Same exclusions as `step_inv_partial`: duplicate-key association lists as
+    `_id` (not Python values), multi-field embedded `_id`s (scope limit
+    `embedded-id-multifield`). -/
+theorem stepX_inv_partial (cfg : Cfg) (now : Int) (c : Coll) (op : Val) (h : IdInv c)
+    (hg : GoodColl c) (hm : ∀ m ∈ midColls cfg now c op, GoodColl m)
+    (hg' : GoodColl (stepX cfg now c op).1) : IdInv (stepX cfg now c op).1 :=
+  Proofs.C05Ext.stepX_inv_alt cfg now c op h hg hm hg'
+
+/-- … on states with a clock (`stepXS`: `clock` moves the time, every other operation is
+    `stepX` at the current time). -/
+theorem stepXS_inv_partial (cfg : Cfg) (s : St) (op : Val) (h : IdInv s.c) (hg : GoodColl s.c)
+    (hm : ∀ m ∈ midColls cfg s.now s.c op, GoodColl m) (hg' : GoodColl (stepXS cfg s op).1.c) :
+    IdInv (stepXS cfg s op).1.c :=
+  Proofs.C05Ext.stepXS_inv_alt cfg s op h hg hm hg'
+
+/-- `midColls` is empty unless the operation is a bulk: for `find_one`, the find-and-modify
+    family and the basic operations `stepX_inv_partial` has the hypotheses of `step_inv_partial`. -/
+theorem midColls_not_bulk (cfg : Cfg) (now : Int) (c : Coll) (op : Val) (h : bulkReqs op = none) :
+    midColls cfg now c op = [] :=
+  Proofs.C05Ext.midColls_nil cfg now c op h
+
+/-- For a concrete collection and operation the hypotheses of `stepX_inv_partial` can be
+    discharged by evaluation (`idInvB` decides `IdInv`; `goodCollB`: scalar store keys and
+    dict-shaped documents, narrower than `GoodColl`). -/
+theorem stepX_inv_check (cfg : Cfg) (now : Int) (c : Coll) (op : Val)
+    (h : (Proofs.C05Ext.idInvB c && Proofs.C05Ext.goodCollB c &&
+      (midColls cfg now c op).all Proofs.C05Ext.goodCollB &&
+      Proofs.C05Ext.goodCollB (stepX cfg now c op).1) = true) : IdInv (stepX cfg now c op).1 :=
+  Proofs.C05Ext.stepX_inv_check cfg now c op h
+
+/-- three documents (one key a double, one a string) -/
+def demoCollX : Coll :=
+  { docs := [(.int 1, .doc [("_id", .int 1), ("a", .int 1)]),
+             (.dbl 5 1, .doc [("_id", .dbl 5 1), ("a", .int 2)]),
+             (.str "k", .doc [("_id", .str "k"), ("a", .int 2)])] }
+
+/-- an unordered bulk mixing all kinds: an insert, a rejected one (`1.0 == 1`), a multi-update, an
+    update of an `_id` to an `==` value, a rejected change of `_id`, an upserting replacement, a
+    delete -/
+def demoBulk : Val :=
+  .arr [.str "bulk_write", .arr [
+    .arr [.str "InsertOne", .doc [("_id", .int 2)]],
+    .arr [.str "InsertOne", .doc [("_id", .dbl 1 0)]],
+    .arr [.str "UpdateMany", .doc [("a", .int 2)], .doc [("$set", .doc [("z", .int 0)])], .bool false],
+    .arr [.str "UpdateOne", .doc [("_id", .int 1)], .doc [("$set", .doc [("_id", .dbl 1 0)])], .bool false],
+    .arr [.str "UpdateOne", .doc [("_id", .str "k")], .doc [("$set", .doc [("_id", .int 3)])], .bool false],
+    .arr [.str "ReplaceOne", .doc [("_id", .int 9)], .doc [("q", .int 1)], .bool true],
+    .arr [.str "DeleteMany", .doc [("z", .int 0), ("_id", .str "k")]]], .bool false]
+
+/-- non-vacuity of `stepX_inv_partial` (bulk): `demoBulk` on `demoCollX` -/
+example : IdInv (stepX {} 0 demoCollX demoBulk).1 := stepX_inv_check _ _ _ _ (by decide +kernel)
+
+/-- … what the bulk did: BulkWriteError with write errors at the indexes 1 (DuplicateKeyError)
+    and 4, eight collections between the requests, four documents at the end -/
+example :
+    (match (stepX {} 0 demoCollX demoBulk).2 with
+     | .bulkErr (.doc d) => dget "writeErrors" d
+     | _ => none) == some (.arr [.doc [("index", .int 1), ("code", .int 11000)],
+                                 .doc [("index", .int 4), ("code", .null)]]) ∧
+    (midColls {} 0 demoCollX demoBulk).map (·.docs.length) = [3, 4, 4, 4, 4, 4, 5, 4] ∧
+    (stepX {} 0 demoCollX demoBulk).1.docs.map (·.1) == [.int 1, .dbl 5 1, .int 2, .int 9] := by
+  decide +kernel
+
+/-- non-vacuity of `stepX_inv_partial` (find-and-modify): `find_one_and_update` with a sort,
+    that finds nothing and upserts; `find_one_and_delete` of the document sorted first -/
+example :
+    IdInv (stepX {} 0 demoCollX (.arr [.str "find_one_and_update", .doc [("_id", .int 7)],
+      .doc [("$set", .doc [("b", .int 1)])], .null, .arr [.arr [.str "a", .int (-1)]],
+      .bool true, .bool true])).1 ∧
+    IdInv (stepX {} 0 demoCollX (.arr [.str "find_one_and_delete", .doc [],
+      .null, .arr [.arr [.str "a", .int (-1)]]])).1 :=
+  ⟨stepX_inv_check _ _ _ _ (by decide +kernel), stepX_inv_check _ _ _ _ (by decide +kernel)⟩
+
+/-- What `midColls` lists for a `bulk_write` whose requests pass the registration check: the
+    collections the executor loop (`bulkLoop`) leaves after the first `n` requests, `n = 0 … `
+    the number of requests (a loop that stopped earlier stays where it stopped). -/
+theorem midColls_bulk (cfg : Cfg) (now : Int) (c : Coll) (reqs : List Val) (ordered : Val)
+    (hp : bulkPrecheck reqs = .ok ()) :
+    midColls cfg now c (.arr [.str "bulk_write", .arr reqs, ordered]) =
+      (List.range (reqs.length + 1)).map (fun n =>
+        (bulkLoop cfg now (boolOf ordered) (reqs.take n) 0 c {}).1) :=
+  Proofs.C05Ext.midColls_bulk cfg now c reqs ordered hp
+
+/-- non-vacuity: the requests of `demoBulk` pass the registration check -/
+example : (match demoBulk with
+    | .arr [_, .arr reqs, _] => bulkPrecheck reqs
+    | _ => .error .other) = .ok () := by decide +kernel
+
+/-- `traceX` lists (at least) every state along the history: the hypothesis of
+    `reachableX_inv_partial` covers what `reachable_inv_partial` asks, `GoodColl` of the state
+    after every prefix. -/
+theorem traceX_states (cfg : Cfg) (ops : List Val) (n : Nat) :
+    (runX cfg (ops.take n)).2.c ∈ traceX cfg ops :=
+  Proofs.C05Ext.traceX_states cfg ops n
+
+/-- **In every state reachable through ANY of the modelled operations** (`runX`: any history of
+    any length from the empty collection over the basic operations, `find_one`, the
+    find-and-modify family, `bulk_write` and the bulk builder) no two store keys are equal and
+    every document sits under its own `_id`, PROVIDED every collection the history passes
+    through (`traceX`: the states along it and the collections between the requests of its bulks)
+    holds well-behaved entries only (`GoodColl`).  Same exclusions as `reachable_inv_partial`. -/
+theorem reachableX_inv_partial (cfg : Cfg) (ops : List Val)
+    (hg : ∀ m ∈ traceX cfg ops, GoodColl m) : IdInv (runX cfg ops).2.c :=
+  Proofs.C05Ext.reachableX_inv_alt cfg ops hg
+
+/-- For a concrete history the hypothesis of `reachableX_inv_partial` can be discharged by
+    evaluation (`goodB`: scalar store keys, dict-shaped documents). -/
+theorem reachableX_inv_check (cfg : Cfg) (ops : List Val)
+    (h : (traceX cfg ops).all (fun m => m.docs.all goodB) = true) : IdInv (runX cfg ops).2.c :=
+  Proofs.C05Ext.reachableX_inv_check cfg ops h
+
+/-- the history used below: an insert, an upserting `find_one_and_update`, a sorted
+    `find_one_and_update`, an unordered `bulk_write` mixing kinds with a failing request
+    (`1.0 == 1`), an ordered bulk builder that stops at a duplicate and is executed twice, a
+    `find_one_and_replace`, a `find_one_and_delete`, a `find_one` -/
+def demoHistoryX : List Val := [
+  .arr [.str "insert_one", .doc [("_id", .int 1), ("a", .int 1)]],
+  .arr [.str "find_one_and_update", .doc [("_id", .int 7)], .doc [("$set", .doc [("b", .int 1)])],
+    .null, .null, .bool true, .bool true],
+  .arr [.str "find_one_and_update", .doc [("a", .int 1)], .doc [("$inc", .doc [("a", .int 1)])],
+    .null, .arr [.arr [.str "a", .int 1]], .bool false, .bool false],
+  .arr [.str "bulk_write", .arr [
+    .arr [.str "InsertOne", .doc [("_id", .int 2)]],
+    .arr [.str "InsertOne", .doc [("_id", .dbl 1 0)]],
+    .arr [.str "UpdateMany", .doc [], .doc [("$set", .doc [("z", .int 0)])], .bool false],
+    .arr [.str "ReplaceOne", .doc [("_id", .int 9)], .doc [("q", .int 1)], .bool true],
+    .arr [.str "DeleteOne", .doc [("_id", .int 2)]]], .bool false],
+  .arr [.str "bulk_builder", .arr [
+    .arr [.str "InsertOne", .doc [("_id", .int 3)]],
+    .arr [.str "InsertOne", .doc [("_id", .int 3)]],
+    .arr [.str "InsertOne", .doc [("_id", .int 4)]]], .bool true, .int 2],
+  .arr [.str "find_one_and_replace", .doc [("_id", .int 3)], .doc [("r", .int 1)],
+    .null, .null, .bool false, .bool true],
+  .arr [.str "find_one_and_delete", .doc [("_id", .int 7)], .null, .null],
+  .arr [.str "find_one", .doc [("_id", .int 3)], .null, .null]]
+
+/-- non-vacuity of `reachableX_inv_partial` -/
+example : IdInv (runX {} demoHistoryX).2.c := reachableX_inv_check _ _ (by decide +kernel)
+
+/-- … and what happened along `demoHistoryX`: the bulk_write raised BulkWriteError, nothing else
+    raised; the history passed through 19 collections; the final `_id`s -/
+example :
+    (runX {} demoHistoryX).1.map (fun r => r.1.isErr) =
+      [false, false, false, true, false, false, false, false] ∧
+    (traceX {} demoHistoryX).map (·.docs.length) =
+      [0, 1, 2, 2, 2, 3, 3, 3, 4, 3, 3, 3, 4, 4, 4, 4, 4, 3, 3] ∧
+    (runX {} demoHistoryX).2.c.docs.map (·.1) == [.int 1, .int 9, .int 3] := by
+  decide +kernel
+
+/-! ### a duplicate `_id` inside a bulk -/
+
+/-- **An `InsertOne` request whose `_id` is already a key yields a write error at its index**
+    (code 11000, DuplicateKeyError) **and leaves the collection as the expiry pass alone leaves
+    it**: an ordered bulk stops there with BulkWriteError, an unordered one goes on with the
+    remaining requests from that collection (`dup_rejected` for the bulk path). -/
+theorem bulk_dup_rejected (cfg : Cfg) (now : Int) (ordered : Bool) (c c1 : Coll) (idx : Nat)
+    (fs : Fields) (id : Val) (rest : List Val) (t : BulkTotals)
+    (hid : dget "_id" (patchFields fs) = some id) (hk : storeKey id = .ok id)
+    (he : expire now c = .ok c1) (hd : c1.hasKey id = true) :
+    bulkLoop cfg now ordered (.arr [.str "InsertOne", .doc fs] :: rest) idx c t =
+      if ordered then
+        (c1, .bulkErr ({ t with errors := t.errors ++
+          [Val.doc [("index", .int idx), ("code", .int 11000)]] }).toVal)
+      else
+        bulkLoop cfg now ordered rest (idx + 1) c1 { t with errors := t.errors ++
+          [Val.doc [("index", .int idx), ("code", .int 11000)]] } :=
+  Proofs.C05Ext.bulk_dup_rejected cfg now ordered c c1 idx fs id rest t hid hk he hd
+
+/-- non-vacuity: `{_id: 1.0}` against `demoCollX` (`1.0 == 1`), ordered, as the third request -/
+example : bulkLoop {} 0 true [.arr [.str "InsertOne", .doc [("_id", .dbl 1 0)]],
+      .arr [.str "InsertOne", .doc [("_id", .int 8)]]] 2 demoCollX {} =
+    (demoCollX, .bulkErr ({ ({} : BulkTotals) with errors :=
+      [Val.doc [("index", .int 2), ("code", .int 11000)]] }).toVal) :=
+  bulk_dup_rejected {} 0 true demoCollX demoCollX 2 _ (.dbl 1 0) _ {} rfl rfl rfl
+    (by decide +kernel)
 
 end MongoModel.Props.C05
